@@ -183,7 +183,13 @@ pub fn run_case(cx: &mut Ctx, mixed_kinds: bool) {
                         );
                     }
                 }
-                if reg.register(a.boxed()).is_ok() && reg.register(b.boxed()).is_ok() {
+                // between the two registrations: a failing unregister of a never registered bundle that contains
+                // the first collector's descriptor must not free that descriptor
+                let first_ok = reg.register(a.boxed()).is_ok();
+                if let Some(o) = (0..specs.len()).find(|i| specs[*i].name != t.name) {
+                    let _ = reg.unregister(Box::new(TwoInOne { parts: vec![a.boxed(), built[o].boxed()] }));
+                }
+                if first_ok && reg.register(b.boxed()).is_ok() {
                     cx.owned_violation(
                         "C14",
                         "collector-of-another-kind-with-an-equal-descriptor-admitted",
